@@ -50,7 +50,7 @@ POOL = ["a", "b", "c", "x", "y"]
 INT_OPS = ["+", "-", "*"]
 CMP_OPS = ["<", ">", "<=", ">=", "==", "!="]
 ALL_FEATURES = frozenset(["assign", "update", "while", "for", "match", "closure", "fundef", "str", "list", "dbg", "nonascii", "print",
-                          "hint", "annot", "tuple", "shadowbias"])
+                          "hint", "annot", "tuple", "shadowbias", "break"])
 MODEL_FEATURES = frozenset(["assign", "while", "closure", "fundef", "print", "dbg"])
 
 
@@ -68,6 +68,7 @@ class Gen:
         self.funs = []                  # (name, [ptys], ret, uid, pure)
         self.nloop = 0
         self.pure_ctx = []
+        self.loop_depth = 0
         self.prefer = None              # a variable name that uses are biased towards (shadowing scenarios)
 
     def nid(self):
@@ -228,9 +229,17 @@ class Gen:
         """A block (list of statements) whose last statement is an expression of type ty."""
         self.scopes.append(dict(extra or {}))
         out = []
+        saved = self.prefer
         if self.r.random() < 0.4 and d < 3:
-            out.append(self.let_stmt(d + 1))
+            if "shadowbias" in self.f and self.r.random() < 0.6:
+                # a block-local binding that the block's value uses: `{ let m = ..  m * 2 }`
+                st = self.let_stmt(d + 1, ty if ty in ("Int", "Bool", "Str") else None)
+                self.prefer = st["n"]
+            else:
+                st = self.let_stmt(d + 1)
+            out.append(st)
         out.append(self.expr(ty, d + 1))
+        self.prefer = saved
         self.scopes.pop()
         return out
 
@@ -255,12 +264,14 @@ class Gen:
         if pure:
             self.pure_ctx.append(1)
         self.scopes.append({n: ("Int", u)})
+        saved_ld, self.loop_depth = self.loop_depth, 0      # a closure body is not inside the enclosing loop
         body = []
         if self.r.random() < 0.4 and d < 2:
             body.append(self.let_stmt(d + 1))
         if not pure and "print" in self.f:
             body.append({"k": "println", "e": self.expr("Int", 2)})
         body.append(self.expr("Int", d + 1))
+        self.loop_depth = saved_ld
         self.scopes.pop()
         if pure:
             self.pure_ctx.pop()
@@ -292,6 +303,9 @@ class Gen:
     def stmt(self, d):
         r = self.r
         nested = d < 3
+        if self.loop_depth > 0 and "break" in self.f and r.random() < 0.12:
+            # leave / restart the innermost loop (while bodies increment their counter first)
+            return {"k": "if", "c": self.expr("Bool", 2), "t": [{"k": r.choice(["break", "break", "continue"])}], "e": None, "stmt": True}
         k = r.randrange(12)
         if k <= 3:
             return self.let_stmt(1)
@@ -322,7 +336,9 @@ class Gen:
             else:
                 inc = {"k": "assign", "n": i, "id": self.nid(), "b": u, "op": "=",
                        "e": {"k": "bin", "op": "+", "l": self.var(i, u), "r": {"k": "int", "v": 1}}}
+            self.loop_depth += 1
             body = self.block(r.randrange(1, 3), d + 1)
+            self.loop_depth -= 1
             return {"k": "seq", "ss": [{"k": "let", "n": i, "id": u, "e": {"k": "int", "v": 0}},
                                        {"k": "while", "c": cond, "b": [inc] + body}]}
         if k == 8 and nested and "for" in self.f and "list" in self.f:
@@ -330,7 +346,9 @@ class Gen:
             u = self.nid()
             it = self.expr("List", 1)
             self.scopes.append({n: ("Int", u)})
+            self.loop_depth += 1
             body = self.block(r.randrange(1, 3), d + 1)
+            self.loop_depth -= 1
             self.scopes.pop()
             return {"k": "for", "n": n, "id": u, "it": it, "b": body}
         if k == 9 and nested and "match" in self.f:
@@ -579,6 +597,8 @@ class Printer:
             self.w(")")
         elif k == "none":
             self.w("None")
+        elif k in ("break", "continue"):
+            self.w(k)
         elif k == "fundef":
             self.w("fun ")
             self.name(e["n"], e["id"])
@@ -708,7 +728,7 @@ class Resolver:
         elif k == "assign":
             self.use(e["n"], e["id"])
             self.expr(e["e"])
-        elif k in ("int", "bool", "str", "none"):
+        elif k in ("int", "bool", "str", "none", "break", "continue"):
             pass
         else:
             raise ValueError(k)
